@@ -86,13 +86,14 @@ def restart_loads(ctx, sim, label, every=3):
 
 def one(ctx, params, with_model, outs):
     n_ens, workers, steps, seed, wf, restarts, acc = params[:7]
+    rich = bool(params[8]) if len(params) > 8 else False
     label = (f"n_ens={n_ens} workers={workers} steps={steps} seed={seed} wf={wf} restarts={list(restarts)} "
-             f"acc_p={acc} ctxseed={ctx.seed}")
+             f"acc_p={acc} rich={rich} ctxseed={ctx.seed}")
     old = signal.signal(signal.SIGVTALRM, _on_vtalrm)
     signal.setitimer(signal.ITIMER_VIRTUAL, 20.0 + 0.02 * steps * n_ens)
     try:
         sim = T.run_history(ctx, n_ens, workers, steps, seed=seed, wf=wf, restarts=tuple(restarts), acc_p=acc,
-                            rng=random.Random(label))
+                            rng=random.Random(label), rich_init=rich)
     finally:
         signal.setitimer(signal.ITIMER_VIRTUAL, 0)
         signal.signal(signal.SIGVTALRM, old)
@@ -121,6 +122,13 @@ def run(ctx):
                 steps = 14 + 4 * n_ens
                 rs = () if rep % 2 == 0 else (rng.randint(2, steps - 4),)
                 plans.append((n_ens, w, steps, rng.randint(0, 5), bool(rep % 2), rs, rng.choice([0.5, 0.9]), True))
+    # short runs: fewer steps than workers (fresh and after a restart) — the initiation closes early
+    for n_ens in (4, 5, 6):
+        for w in range(2, n_ens):
+            for steps in (1, 2, w - 1):
+                for rep in range(3):
+                    plans.append((n_ens, w, steps, rng.randint(0, 5), False, (), 0.9, n_ens <= 5, True))
+            plans.append((n_ens, w, 9, rng.randint(0, 5), False, (9 - rng.randint(1, w - 1),), 0.9, n_ens <= 5, True))
     for _ in range(5 if ctx.quick else 50):
         n_ens = rng.randint(5, 8)
         steps = rng.randint(40, 100 if ctx.quick else 300)
@@ -129,7 +137,7 @@ def run(ctx):
                       rng.choice([0.3, 0.7, 0.95]), n_ens <= 5))
     outs = []
     for p in plans:
-        one(ctx, p[:7], p[7] and ctx._driver_ok, outs)
+        one(ctx, tuple(p[:7]) + (None, p[8] if len(p) > 8 else False), p[7] and ctx._driver_ok, outs)
     for sm, label in outs:
         T.compare(ctx, sm, ctx.driver(sm.lines), label)
     if outs:
